@@ -204,8 +204,13 @@ CONTEXTS = {
 ARGS = [[["int", 0], ["int", 1], ["bool", 1]], [["int", 3], ["int", -2], ["bool", 0]], [["int", 5], ["int", 5], ["bool", 1]]]
 
 
-def build_cases():
+ARGS_MORE = [[["int", 2], ["int", 0], ["bool", 0]], [["int", 1], ["int", 9], ["bool", 1]], [["int", 101], ["int", 3], ["bool", 0]]]
+
+
+def build_cases(thorough=False):
     cases = []
+    args = ARGS + ARGS_MORE if thorough else ARGS
+    scheds = ["min", "max", "rand:1", "rand:2"] if thorough else ["min", "max"]
     for name, lines in PLANTS.items():
         for cname, templ in CONTEXTS.items():
             if cname == "nested" and name in ("nonlocal_stmt",):
@@ -213,12 +218,12 @@ def build_cases():
             src = PRE + "\n" + templ.replace("{P4}", "\n".join("    " + l for l in lines)).replace(
                 "{P8}", "\n".join("        " + l for l in lines))
             cases.append({"id": f"{name}@{cname}", "plant": name, "context": cname, "src": src, "entry": "main",
-                          "args": ARGS, "scheds": ["min", "max"]})
+                          "args": args, "scheds": scheds})
     return cases
 
 
 def run(ctx):
-    cases = build_cases()
+    cases = build_cases(not ctx.quick)
     res = sem.evaluate(ctx, cases, "C32")
     cnt = collections.Counter()
     table = {}
